@@ -18,3 +18,7 @@ func TestVerifC01Decorator(t *testing.T) {
 func TestVerifC02Decorator(t *testing.T) {
 	vs.Run(t, "C02", func(c *vs.Case) error { return vw.PropC02(c, decoratorFactory, "decorator") })
 }
+
+func TestVerifC03Decorator(t *testing.T) {
+	vs.Run(t, "C03", func(c *vs.Case) error { return vw.PropC03(c, decoratorFactory, "decorator") })
+}
